@@ -1,4 +1,7 @@
-"""Gen/Crc.lean: CRC tables and the shape of the sliced CRC-32 fast path (src/crc.rs)"""
+"""Gen/Crc.lean: CRC tables and the shape of the sliced CRC-32 fast path (src/crc.rs);
+Gen/CrcSites.lean: the three call sites that feed bytes through update_crc16 / update_crc32 (DECRQCRA, font checksum,
+palette checksum): the per-cell / per-colour byte order, loop bounds, initial values are REGENERATED, the rest of each function
+body is emitted as a whitespace-normalised fingerprint that a theorem compares with the text the model was written from."""
 import re, json
 from extract import src, nums, lean_list, HEADER, ExtractError
 
@@ -70,4 +73,155 @@ def gen_crc():
 
 
 
-GENERATORS = {'crc': gen_crc}
+# --------------------------------------------------------------------------- call sites
+def _ws(t):
+    return re.sub(r'\s+', ' ', t).strip()
+
+
+def _method(s, name, what):
+    """body of an `impl` method (4-space indented)"""
+    m = re.search(r'\n    (?:pub(?:\([a-z]+\))? )?fn ' + name + r'\([^)]*\)[^{]*\{\n(.*?)\n    \}\n', s, re.S)
+    if not m:
+        raise ExtractError(f'{what}: fn {name} not found')
+    return m.group(1)
+
+
+def _block(text, start):
+    """text of the brace block that opens at text[start] == '{' (exclusive of the braces), and the index after it"""
+    depth = 0
+    for i in range(start, len(text)):
+        if text[i] == '{':
+            depth += 1
+        elif text[i] == '}':
+            depth -= 1
+            if depth == 0:
+                return text[start + 1:i], i + 1
+    raise ExtractError('unbalanced braces')
+
+
+def _lit(t):
+    return int(t.replace('_', ''), 0)
+
+
+def gen_crc_sites():
+    out = [HEADER, 'namespace IcyVerif.Gen.CrcSites\n']
+    fps = {}
+    # ---- DECRQCRA
+    a = src('src/parsers/ansi/ansi_commands.rs')
+    body = _method(a, 'request_checksum_of_rectangular_area', 'DECRQCRA')
+    body = re.sub(r'//[^\n]*', '', body)
+    m = re.search(r'if self\.parsed_numbers\.len\(\) != (\d+) \{', body)
+    if not m:
+        raise ExtractError('DECRQCRA: parameter count test not found')
+    out.append(f'def rectNumCount : Nat := {m.group(1)}\n')
+    for nm in ['pt', 'pl', 'pb', 'pr']:
+        mm = re.search(r'let ' + nm + r' = self\.parsed_numbers\[(\d+)\];', body)
+        if not mm:
+            raise ExtractError(f'DECRQCRA: let {nm} not found')
+        out.append(f'def rectIdx_{nm} : Nat := {mm.group(1)}\n')
+    mm = re.search(r'format!\("\\x1BP\{\}!~\{crc16:04X\}\\x1B\\\\", self\.parsed_numbers\[(\d+)\]\)', body)
+    if not mm:
+        raise ExtractError('DECRQCRA: reply format changed')
+    out.append(f'def rectIdx_id : Nat := {mm.group(1)}\n')
+    for var, lo, hi in [('y', 'pt', 'pb'), ('x', 'pl', 'pr')]:
+        mm = re.search(r'for ' + var + r' in ' + lo + r'\.\.(=?)' + hi + r' \{', body)
+        if not mm:
+            raise ExtractError(f'DECRQCRA: loop over {var} changed')
+        out.append(f'def rectIncl_{var} : Bool := {"true" if mm.group(1) else "false"}\n')
+    i = body.find('if ch.is_visible() {')
+    if i < 0:
+        raise ExtractError('DECRQCRA: visibility test not found')
+    blk, end = _block(body, i + len('if ch.is_visible() '))
+    t = text_attr = src('src/text_attribute.rs')
+    mm = re.search(r'pub attr: u(\d+),', t)
+    fgw = re.search(r'pub fn get_foreground\(self\) -> u(\d+) \{\s*self\.foreground_color\s*\}', t)
+    bgw = re.search(r'pub fn get_background\(self\) -> u(\d+) \{\s*self\.background_color\s*\}', t)
+    if not (mm and fgw and bgw):
+        raise ExtractError('TextAttribute: attr / get_foreground / get_background changed')
+    widths = {'attr': int(mm.group(1)) // 8, 'get_foreground()': int(fgw.group(1)) // 8, 'get_background()': int(bgw.group(1)) // 8}
+    code = {'attr': 1, 'get_foreground()': 2, 'get_background()': 3}
+    rest = _ws(blk)
+    fields = []
+    while rest:
+        m1 = re.match(r'crc16 = update_crc16\(crc16, ch\.ch as u8\); ?', rest)
+        m2 = re.match(r'for b in ch\.attribute\.(attr|get_foreground\(\)|get_background\(\))\.to_(be|le)_bytes\(\) \{ crc16 = update_crc16\(crc16, b\); \} ?', rest)
+        if m1:
+            fields.append((0, 1, 0))
+            rest = rest[m1.end():]
+        elif m2:
+            fields.append((code[m2.group(1)], widths[m2.group(1)], 0 if m2.group(2) == 'be' else 1))
+            rest = rest[m2.end():]
+        else:
+            raise ExtractError('DECRQCRA: statement the translator does not understand in the per-cell feeding: ' + rest[:80])
+    out.append('/-- per visible cell, in feeding order: (field: 0 ch / 1 attr / 2 foreground / 3 background, bytes, 0 big / 1 little endian) -/\n')
+    out.append('def rectFields : List (Nat × Nat × Nat) := [' + ', '.join(f'({a_}, {b_}, {c_})' for a_, b_, c_ in fields) + ']\n')
+    fps['decrqcra'] = _ws(body[:i] + 'if ch.is_visible() { SERIAL }' + body[end:])
+    ac = src('src/attributed_char.rs')
+    fps['is_visible'] = _ws(_method(ac, 'is_visible', 'AttributedChar'))
+    mm = re.search(r'pub const INVISIBLE: u16 = ([0-9a-fA-Fxb_]+);', t)
+    if not mm:
+        raise ExtractError('attribute::INVISIBLE not found')
+    out.append(f'def attrInvisible : Nat := {_lit(mm.group(1))}\n')
+    # ---- BitFont::calculate_checksum
+    f = src('src/fonts.rs')
+    body = _method(f, 'calculate_checksum', 'BitFont')
+    mi = re.search(r'let mut crc = (\d+);', body)
+    ml = re.search(r'for ch in (\d+)\.\.(=?)self\.length \{', body)
+    if not (mi and ml):
+        raise ExtractError('BitFont::calculate_checksum: initial value / loop over 0..self.length changed')
+    out.append(f'def fontInit : Nat := {mi.group(1)}\n')
+    out.append(f'def fontLoopFrom : Nat := {ml.group(1)}\n')
+    out.append(f'def fontLoopIncl : Bool := {"true" if ml.group(2) else "false"}\n')
+    fps['font_calculate_checksum'] = _ws(body)
+    fps['font_get_checksum'] = _ws(_method(f, 'get_checksum', 'BitFont'))
+    fps['font_get_glyph'] = _ws(_method(f, 'get_glyph', 'BitFont'))
+    # ---- Palette
+    p = src('src/palette_handling.rs')
+    body = _method(p, 'get_checksum', 'Palette')
+    fl = re.findall(r'self\.checksum = update_crc32\(self\.checksum, c\.([a-z]+)\);', body)
+    if not fl or any(x not in 'rgb' for x in fl):
+        raise ExtractError('Palette::get_checksum: feeding lines changed')
+    out.append('/-- per colour, in feeding order: 0 r / 1 g / 2 b -/\n')
+    out.append('def palFields : List Nat := [' + ', '.join(str('rgb'.index(x)) for x in fl) + ']\n')
+    fp = re.sub(r'(\s*self\.checksum = update_crc32\(self\.checksum, c\.[a-z]+\);)+', ' FIELDS;', body, count=1)
+    fps['pal_get_checksum'] = _ws(fp)
+    for nm in ['invalidate_checksum', 'push', 'set_color', 'set_color_rgb', 'clear', 'resize', 'fill_to_16', 'insert_color', 'len']:
+        fps['pal_' + nm] = _ws(_method(p, nm, 'Palette'))
+    hsl = _ws(_method(p, 'set_color_hsl', 'Palette'))
+    fps['pal_set_color_hsl'] = re.sub(r'let \(r, g, b\) = .*?; self\.colors\[', 'HSL; self.colors[', hsl, count=1)
+    olds = set(re.findall(r'\bold_checksum: (\d+),', p))
+    regs = set(re.findall(r'\bchecksum: (\d+),', p))
+    if len(olds) != 1 or len(regs) != 1:
+        raise ExtractError(f'Palette constructors: initial old_checksum {sorted(olds)} / checksum {sorted(regs)} not uniform')
+    n_ctor = len(re.findall(r'\bold_checksum: \d+,', p))
+    out.append(f'def palInitOld : Nat := {olds.pop()}\n')
+    out.append(f'def palInitReg : Nat := {regs.pop()}\n')
+    out.append(f'def palConstructors : Nat := {n_ctor}\n')
+    # anything else that writes the two cache fields or the colour vector in place would have to be modelled too
+    writers = sorted(set(re.findall(r'self\.(?:old_checksum|checksum) = ', p)))
+    n_writes = len(re.findall(r'self\.(?:old_checksum|checksum) = ', p))
+    out.append(f'def palCacheWrites : Nat := {n_writes}\n')
+    mut_sites = len(re.findall(r'self\.colors(?:\[[^\]]*\] = |\.(?:push|resize|clear|truncate|remove|insert|swap|pop|retain|drain|extend|iter_mut|sort|reverse|dedup|append|split_off|swap_remove|get_mut|last_mut|first_mut|as_mut|fill)\b)', p))
+    out.append(f'def palColorWrites : Nat := {mut_sites}\n')
+    mm = re.search(r'#\[derive\(([^)]*)\)\]\s*pub struct Color \{(.*?)\n\}', p, re.S)
+    if not mm or 'Default' not in mm.group(1):
+        raise ExtractError('Color no longer derives Default')
+    out.append('def colorDefault : List Nat := [0, 0, 0]\n')
+    mm = re.search(r'pub const DOS_DEFAULT_PALETTE: \[Color; 16\] = \[(.*?)\n\];', p, re.S)
+    if not mm:
+        raise ExtractError('DOS_DEFAULT_PALETTE not found')
+    vals = [_lit(x) for x in re.findall(r'\b[rgb]: (0x[0-9A-Fa-f]+|\d+)', mm.group(1))]
+    if len(vals) != 48:
+        raise ExtractError(f'DOS_DEFAULT_PALETTE: {len(vals)} components')
+    out.append(lean_list('dosDefaultFlat', vals))
+    for n, fp in fps.items():
+        out.append(f'def src_{n} : String := {json.dumps(fp)}\n')
+    out.append('end IcyVerif.Gen.CrcSites\n')
+    return 'CrcSites.lean', ''.join(out)
+
+
+def gen_crc_all():
+    return [gen_crc(), gen_crc_sites()]
+
+
+GENERATORS = {'crc': gen_crc_all}
